@@ -18,7 +18,7 @@ RULE = ("left documents x merge paths x right documents x policies.  Small part:
         "vocabulary {root, the exact path of every node, the wildcard over the children of every container (multiple "
         "targets), a missing key / index below every container (creatable: one and two segments, list padding), a key below "
         "every scalar and a search that matches nothing (not creatable)} x every right document with <= 2 nodes (quick; <= 3 "
-        "thorough: every root kind) x 6 of the 180 hash x array x aoh x set combinations rotating through all of them "
+        "thorough: every root kind) x 4 of the 180 hash x array x aoh x set combinations rotating through all of them "
         "(quick) / all 180 (thorough).  Random part: left documents of up to ~25 nodes (maps, lists, arrays-of-hashes, sets, "
         "empty containers), a target chosen in them, merge paths {exact in dot or slash notation, wildcard / search / "
         "attribute-search / slice / traversal variants yielding several targets, missing creatable tails of 1-3 segments, "
@@ -804,7 +804,7 @@ def run(chk: core.Check):
         table_checks(chk)
         lb = int(os.environ.get("YPV_EXH_BOUND") or (3 if tier == "quick" else 4))   # developer override only
         rb = 2 if tier == "quick" else 3
-        npol = 6 if tier == "quick" else 180
+        npol = 4 if tier == "quick" else 180
         lefts = mg.docs_up_to(lb)
         rights = mg.docs_up_to(rb)
         rng.shuffle(lefts)
